@@ -158,12 +158,16 @@ def endsPending (l : Bytes) : Bool := l.length ≥ bufSize && endsPendingAux (l.
 
 /-- The input as a `ReadLine` loop sees it: the lines delivered completely, and the bytes of
     a final line that is delivered only as `isPrefix` fragments before `io.EOF`
-    (`[]` when there is none). -/
-def readLineInput (bs : Bytes) : List Bytes × Bytes :=
+    (`[]` when there is none).  `eofWithData`: the underlying `io.Reader` returns `io.EOF`
+    together with the last bytes (then `bufio` sees the pending error before it sees the
+    full buffer and the last fragment is delivered as a complete line); `false` for a
+    reader that reports `io.EOF` on the Read after the last data (files, `bytes.Reader`). -/
+def readLineInput (eofWithData : Bool) (bs : Bytes) : List Bytes × Bytes :=
   let ls := splitLines bs
-  match bs.getLast?, ls.getLast? with
-  | some b, some l => if b != 10 && endsPending l then (ls.dropLast, l) else (ls, [])
-  | _, _ => (ls, [])
+  if eofWithData then (ls, [])
+  else match bs.getLast?, ls.getLast? with
+    | some b, some l => if b != 10 && endsPending l then (ls.dropLast, l) else (ls, [])
+    | _, _ => (ls, [])
 
 /-! ### an in-memory `io.Writer` -/
 
@@ -178,5 +182,9 @@ def Sink.bytes (s : Sink) : Bytes := s.out.toList
 /-- FNV-1a, 64 bit (used only to compare long outputs in the line protocol) -/
 def fnv1a (bs : Bytes) : UInt64 :=
   bs.foldl (fun h b => (h ^^^ b.toUInt64) * 1099511628211) 14695981039346656037
+
+/-- FNV-1a, 32 bit (the harness picks the behaviour of the `io.Reader` under test from it) -/
+def fnv1a32 (bs : Bytes) : UInt32 :=
+  bs.foldl (fun h b => (h ^^^ b.toUInt32) * 16777619) 2166136261
 
 end Biogo.Go.Bytes
